@@ -112,6 +112,17 @@ PubKeyParams(alg, style) ==
     [] alg = 28 -> <<REAL("ed448_pub", 57)>>
     [] OTHER -> <<BYTES(13)>>
 
+(* ---------- elliptic curves (RFC 9580 9.2): OID octets and the size of the MPI holding a public point ---------- *)
+Curve(name, oid, mpilen) == [name |-> name, oid |-> oid, mpilen |-> mpilen]
+Curves == { Curve("p256", <<42, 134, 72, 206, 61, 3, 1, 7>>, 67), Curve("p384", <<43, 129, 4, 0, 34>>, 99), Curve("p521", <<43, 129, 4, 0, 35>>, 135),
+            Curve("secp256k1", <<43, 129, 4, 0, 10>>, 67),
+            Curve("brainpoolp256r1", <<43, 36, 3, 3, 2, 8, 1, 1, 7>>, 67), Curve("brainpoolp384r1", <<43, 36, 3, 3, 2, 8, 1, 1, 11>>, 99),
+            Curve("brainpoolp512r1", <<43, 36, 3, 3, 2, 8, 1, 1, 13>>, 131),
+            Curve("ed25519legacy", <<43, 6, 1, 4, 1, 218, 71, 15, 1>>, 35), Curve("curve25519legacy", <<43, 6, 1, 4, 1, 151, 85, 1, 5, 1>>, 35),
+            Curve("unknown", <<43, 99, 1>>, 67) }
+OidToks(c) == <<U8(Len(c.oid))>> \o [i \in 1..Len(c.oid) |-> U8(c.oid[i])]
+EccParams(alg, c) == OidToks(c) \o <<REAL("ecc_point_mpi_" \o c.name, c.mpilen)>> \o (IF alg = 18 THEN <<U8(3), U8(1), U8(8), U8(7)>> ELSE <<>>)
+
 (* ---------- cells ---------- *)
 Cell(pt, tag, desc, toks, acc) == [ptype |-> pt, tag |-> tag, desc |-> desc, toks |-> toks,
                                    canonical |-> Canon(toks), accept |-> acc]
@@ -165,6 +176,10 @@ Cells ==
   \* (DSA/ElGamal parameters are random numbers here: a library may validate them, so acceptance is not demanded)
   \cup { Cell("pubsubkey4", 14, <<a>>, <<U8(4), BE32(1600000000), U8(a)>> \o PubKeyParams(a, "canon"), "any") : a \in {1, 18, 25, 99} }
   \cup { Cell("pubkey6", 6, <<a>>, LET p == PubKeyParams(a, "canon") IN <<U8(6), BE32(1700000000), U8(a), BE32(SeqLen(p))>> \o p, IF a \in {1, 25, 26, 27, 28} THEN "yes" ELSE "any") : a \in AllIds }
+  \* ECC keys: every algorithm x every curve OID (a library need not support all of them, but what it accepts must come back unchanged)
+  \cup { Cell("pubkey4_ecc", 6, <<a, c.name>>, <<U8(4), BE32(1600000000), U8(a)>> \o EccParams(a, c), "any") : a \in {18, 19, 22}, c \in Curves }
+  \cup { Cell("pubsubkey4_ecc", 14, <<a, c.name>>, <<U8(4), BE32(1600000000), U8(a)>> \o EccParams(a, c), "any") : a \in {18, 19}, c \in Curves }
+  \cup { Cell("pubkey6_ecc", 6, <<a, c.name>>, LET p == EccParams(a, c) IN <<U8(6), BE32(1700000000), U8(a), BE32(SeqLen(p))>> \o p, "any") : a \in {18, 19}, c \in Curves }
   \cup { Cell("pubkeyx", 6, <<v>>, <<U8(v), BE32(1600000000), U8(1), MPI(2048, "canon"), MPI(17, "canon")>>, "any") : v \in {0, 1, 2, 3, 5, 7, 255} }
   \* locked secret keys: every S2K usage octet, S2K types, opaque protected blob
   \cup { Cell("seckey4", 5, <<u, t>>,
